@@ -382,6 +382,49 @@ def run(res, tier):
                 "every record of which is recomputed from the file itself; configurations = base + all single deviations (+ all pairs in the thorough tier) over "
                 "grid size, grid shifts, filling pattern, output cadence, save cadence, step count, impedance, tracking, renormalisation")
     res.bounds_done.append("%d content configurations, %d records; structure lattice replayed: %d behaviours" % (len(cfgs), nrec, traces))
+    # ---- long time axes with steps per period that are not a power of two: thousands of records, each stamped (its step) / (steps per period) - the exact
+    #      quotient rounded once to the stored precision, not something accumulated on the way
+    import struct
+
+    def f32r(x):
+        return struct.unpack("f", struct.pack("f", x))[0]
+    longs = [(600, 2, 40.0), (50, 5, 30.0), (1000, 100, 2.0)] + ([(600, 1, 60.0)] if vlib.deep(tier) else [])
+
+    def dolong(lc):
+        N, o, T = lc
+        r = pl.run(exe, ["-s", 16, "-N", N, "-T", T, "-n", o, "-G", 0, "-f", FS, "-d", 2e-5, "--padding", 2], wd, out="long_%d_%d.h5" % (N, o), timeout=900)
+        d_ = pl.h5(r["h5"], maxv=200000) if r["rc"] == 0 else None
+        for ext in ("", ".cfg", ".log"):
+            try:
+                os.remove(r["h5"] + ext)
+            except OSError:
+                pass
+        return lc, r, d_
+    for (N, o, T), r, d_ in pl.pmap(dolong, longs):
+        case = "long time axis: -N %d -n %d -T %g" % (N, o, T)
+        rp = dict(cmd=r["cmd"])
+        if d_ is None or "error" in d_:
+            res.violate("C10/run-failed", case, "rc=%s %s" % (r["rc"], r["log"][-200:]), replay=rp)
+            continue
+        t = d_["datasets"]["/Info/AxisValues_t"]["data"]
+        last = math.ceil(N * f32(T) - 1e-9)
+        steps_ = [k for k in range(0, last) if k % o == 0] + [last]
+        res.eval(case, pl.chash(case, len(t)), trivial=False)
+        res.coverage["records_on_the_long_time_axes"] = res.coverage.get("records_on_the_long_time_axes", 0) + len(t)
+        if len(t) != len(steps_):
+            res.violate("C10/structure/time-axis/long-run/record-count", case, "%d time stamps for %d output instants" % (len(t), len(steps_)), replay=rp)
+            continue
+        for k, (got, st) in enumerate(zip(t, steps_)):
+            if got != f32r(st / N) and abs(got - st / N) > 1.3e-7 * max(st / N, 1e-3):
+                res.violate("C10/structure/time-axis/long-run/stamp-is-not-step-over-steps-per-period", case, "record %d (step %d): stamped %.9g, step / steps per period = %.9g" % (k, st, got, st / N), replay=rp)
+                break
+            if k and not got > t[k - 1]:
+                res.violate("C10/structure/time-axis/long-run/not-increasing", case, "record %d stamped %.9g after %.9g" % (k, got, t[k - 1]), replay=rp)
+                break
+        for name in ("/BunchLength/data", "/EnergySpread/data", "/BunchProfile/data"):
+            if d_["datasets"][name]["dims"][0] != len(t):
+                res.violate("C10/structure/dataset-length", case, "%s has %d records, the time axis %d" % (name, d_["datasets"][name]["dims"][0], len(t)), replay=rp)
+    res.bounds_done.append("long time axes: %s (steps per period, output cadence, periods): every stamp = step / steps per period to one rounding, strictly increasing" % longs)
     return None
 
 
